@@ -474,6 +474,37 @@ fn parser_tables(ex: &mut Ex, s: &mut String, it: &Items) {
     }
 }
 
+/// C04: how `RctSigPrunable::consensus_decode` computes the MLSAG column count `inputs + 1` (a `usize`; `inputs` is an argument of a
+/// public function): the else-branch of `let mg_ss2_elements = if is_simple_or_bp { 2 } else { <E> }`. `<E>` must be a std integer
+/// method on `inputs` and `1` (`inputs.saturating_add(1)`, `1usize.checked_add(inputs)`, …) or the bare `1 + inputs` / `inputs + 1`.
+fn mg_cols_site(ex: &mut Ex, s: &mut String) {
+    let f = read("src/util/ringct.rs"); let it = items(&f);
+    struct V { found: Vec<String> }   // "op:<method>" | "plain" | "other:<tokens>"
+    impl<'a> Visit<'a> for V {
+        fn visit_local(&mut self, l: &'a Local) {
+            if pat_name(&l.pat).as_deref() == Some("mg_ss2_elements") { if let Some(init) = &l.init { if let Expr::If(i) = &*init.expr { if let Some((_, els)) = &i.else_branch {
+                let e: Option<&Expr> = match &**els { Expr::Block(b) => block_tail(&b.block), other => Some(other) };
+                let atom = |x: &Expr| { let t = toks(x); t == "inputs" || eval(x) == Some(1) || t == "1usize" };
+                self.found.push(match e {
+                    Some(Expr::MethodCall(m)) if m.args.len() == 1 && atom(&m.receiver) && atom(&m.args[0]) && toks(&m.receiver) != toks(&m.args[0]) => format!("op:{}", m.method),
+                    Some(Expr::Binary(b)) if matches!(b.op, BinOp::Add(_)) && atom(&b.left) && atom(&b.right) && toks(&b.left) != toks(&b.right) => "plain".to_string(),
+                    Some(other) => format!("other:{}", toks(other)), None => "other:<no tail expression>".to_string() });
+            } } } }
+            visit::visit_local(self, l);
+        }
+    }
+    let mut v = V { found: vec![] };
+    if let Some(f) = it.fns.iter().find(|(t, _, n, _)| t == "RctSigPrunable" && n == "consensus_decode").map(|x| x.3) { v.visit_block(&f.block); }
+    let doc = "/-- `RctSigPrunable::consensus_decode`: the MLSAG column count `inputs + 1` (`let mg_ss2_elements = if … { 2 } else { <this> }`) is computed by this std method of `usize` … -/";
+    let doc2 = "/-- … or by the bare operator `+` (an overflow panics in a checked build) -/";
+    match v.found.as_slice() {
+        [one] if one == "plain" => writeln!(s, "{}\ndef mgColsOp : Option StdOp := none\n{}\ndef mgColsPlain : Bool := true", doc, doc2).unwrap(),
+        [one] if one.starts_with("op:") && STD_OPS.contains(&&one[3..]) => writeln!(s, "{}\ndef mgColsOp : Option StdOp := some .{}\n{}\ndef mgColsPlain : Bool := false", doc, &one[3..], doc2).unwrap(),
+        other => { ex.fail("mgCols", &format!("the MLSAG column count of `RctSigPrunable::consensus_decode` is not `let mg_ss2_elements = if .. {{ 2 }} else {{ <std method or + on inputs and 1> }}`: {:?}", other));
+            writeln!(s, "def mgColsOp : Option StdOp := none\ndef mgColsPlain : Bool := false").unwrap(); }
+    }
+}
+
 // ---------------------------------------------------------------------------------------------------------------
 // E6: inventory of potential panic sites (C04). Keyed structurally: (file, enclosing fn, kind, normalised expression).
 struct Sites { file: String, fnpath: Vec<String>, out: Vec<(String, String, String, String)> }
@@ -881,6 +912,12 @@ pub fn run(outdir: &str, reviewed_dir: &str) -> Vec<String> {
     amount_tables(&mut ex, &mut s, &it);
     writeln!(s, "end Gen").unwrap();
     pending.push(("Amount".to_string(), s));
+    // ---- Arith.lean (machine-arithmetic sites outside amount.rs whose operator the panic-explicit models follow; C04)
+    let mut s = String::from("import MoneroModel.Model.StdInt\n") + hdr;
+    writeln!(s, "namespace Gen").unwrap();
+    mg_cols_site(&mut ex, &mut s);
+    writeln!(s, "end Gen").unwrap();
+    pending.push(("Arith".to_string(), s));
     panic_inventory(outdir);
     field_orders(outdir);
     json_shapes(outdir);
@@ -889,10 +926,11 @@ pub fn run(outdir: &str, reviewed_dir: &str) -> Vec<String> {
     {
         use monero::blockdata::transaction::{TxIn, TxOut};
         use monero::consensus::encode::VarInt;
-        use monero::util::ringct::{Bulletproof, BulletproofPlus, Key, RangeSig};
+        use monero::util::ringct::{Bulletproof, BulletproofPlus, Clsag, EcdhInfo, Key, MgSig, RangeSig, Signature};
         use std::mem::size_of;
-        let s = format!("import MoneroModel.Types\n{}namespace Gen\ndef sizes : Sizes := ⟨{}, {}, {}, {}, {}, {}, {}, {}⟩\nend Gen\n", hdr.replace("from /repo's current source", "(std::mem::size_of in the current build of /repo)"),
-            size_of::<TxIn>(), size_of::<TxOut>(), size_of::<VarInt>(), size_of::<Key>(), size_of::<Bulletproof>(), size_of::<BulletproofPlus>(), size_of::<u8>(), size_of::<RangeSig>());
+        let s = format!("import MoneroModel.Types\n{}namespace Gen\ndef sizes : Sizes := ⟨{}, {}, {}, {}, {}, {}, {}, {}⟩\n/-- element sizes of the PUSH-GROWN vectors of the RingCT / signature decoders (C04 allocation ledger): `EcdhInfo`, `MgSig`, `Clsag`, `Signature`, `Vec<Key>` (header) -/\ndef szEcdh : Nat := {}\ndef szMg : Nat := {}\ndef szClsag : Nat := {}\ndef szSig : Nat := {}\ndef szVec : Nat := {}\nend Gen\n", hdr.replace("from /repo's current source", "(std::mem::size_of in the current build of /repo)"),
+            size_of::<TxIn>(), size_of::<TxOut>(), size_of::<VarInt>(), size_of::<Key>(), size_of::<Bulletproof>(), size_of::<BulletproofPlus>(), size_of::<u8>(), size_of::<RangeSig>(),
+            size_of::<EcdhInfo>(), size_of::<MgSig>(), size_of::<Clsag>(), size_of::<Signature>(), size_of::<Vec<Key>>());
         std::fs::write(format!("{}/Sizes.lean", outdir), s).unwrap();
     }
     // ---- second pass: observed tables, reviewed fallbacks
